@@ -2,7 +2,7 @@
    of primitives its generated definitions (Gen/Routing.v, Gen/Delivery.v, Gen/LevelNames.v)
    mention, each with the obvious definition.  They are part of the trusted reading of the Go
    text, like the translator itself (DESIGN.md appendix B).  No proofs here. *)
-Require Import Verif.Model.Base Verif.Model.Decision Verif.Model.Dec.
+Require Import Verif.Model.Base Verif.Model.Decision Verif.Model.Dec Verif.Model.Utf8.
 
 (* ---- maps keyed by an integer type ----
    A package-level table and a local map variable are association lists (first binding wins;
@@ -53,3 +53,35 @@ Definition str_index_byte (s : bytes) (c : Z) : Z := str_index_from s c 0.
    the upper-case letters of Unicode and replaces invalid UTF-8; the level names of the model are
    compared under the ASCII mapping, see DESIGN.md section 4, C17);
    fmt.Sprintf with %d is Dec.dec_of_Z (strconv base 10), %s the string itself. *)
+
+(* s[lo:hi]: panics unless 0 <= lo <= hi <= len(s) (None) *)
+Definition str_slice (s : bytes) (lo hi : Z) : option bytes :=
+  if (lo <? 0) || (hi <? lo) || (Z.of_nat (List.length s) <? hi) then None
+  else Some (firstn (Z.to_nat (hi - lo)) (skipn (Z.to_nat lo) s)).
+
+(* a[i] on a fixed-size array given by a keyed literal: [m] holds the keyed elements, every other
+   element is the zero value [zero]; panics unless 0 <= i < len (None) *)
+Definition arr_get {V} (len : Z) (m : list (Z * V)) (zero : V) (i : Z) : option V :=
+  if (0 <=? i) && (i <? len)
+  then Some (match lookupZ m i with Some v => v | None => zero end) else None.
+
+(* utf8.DecodeRuneInString: Model/Utf8.v decode_rune with the width as an int *)
+Definition decode_rune_z (s : bytes) : Z * Z := let '(r, w) := decode_rune s in (r, Z.of_nat w).
+
+(* ---- three-clause for loops ----
+   for ; cond; post { body } is [go_loop fuel step state]: [step] tests the condition and runs body and
+   post on the tuple of the variables they assign (LoopNext), or reports that the loop is over (LoopDone:
+   the condition is false, or break), or that an operation panicked (LoopPanic).  The fuel is declared
+   per loop by the target (extract/targets.go, with the reason it suffices); [None] = a panic OR the fuel
+   did not suffice - a C.._gen_* theorem that shows the function returns [Some ..] excludes both. *)
+Inductive loop_step (S : Type) : Type := LoopNext (s : S) | LoopDone (s : S) | LoopPanic.
+Arguments LoopNext {S} s. Arguments LoopDone {S} s. Arguments LoopPanic {S}.
+Fixpoint go_loop {S : Type} (fuel : nat) (step : S -> loop_step S) (s : S) : option S :=
+  match fuel with
+  | O => None
+  | Datatypes.S f => match step s with
+                     | LoopNext s' => go_loop f step s'
+                     | LoopDone s' => Some s'
+                     | LoopPanic => None
+                     end
+  end.
